@@ -185,8 +185,8 @@ def run_case(case, ctx):
   model = gm.build(spec)
   for w in model.weights:
     w.assign(np.random.default_rng(case["idx"]).normal(0, 0.5, size=w.shape).astype(np.float32))
-  before = snap.take(model=model, objects={"quantizer_config": d, "custom_objects": {}})
-  custom = {}
+  custom = {"UserRelu": tf.keras.layers.ReLU, "user_table": {"a": [1, 2, 3]}}     # caller-owned, must come back untouched
+  before = snap.take(model=model, objects={"quantizer_config": d, "custom_objects": custom})
   base = {"op": "model_quantize"}
   ctx.count("models")
   try:
